@@ -97,6 +97,26 @@ def run(ctx):
                                  "ops": [l for l in d["lines"][:d["first"] + 1] if l.startswith("> ")], "how_to_replay": "bin/check C14 --replay <this file>"})
                     break
     ctx.coverage["read_cancelled_while_entering"] = readx
+    # the same clauses where the tasks are used: each direction of a Pipe stopped in Read / in Write / inside its interceptor and
+    # started again; the handshake's pipeSync ended by a failing handler, a Stop and its parent, with and without a queued message
+    if pexe:
+        rc, out = L.run_harness(ctx, pexe, "TestVerifC12Pipe$", env={}, timeout=300)
+        if rc != 0:
+            ctx.tie_failures.append("pipe harness run failed (rc=%d): %s" % (rc, out[-300:]))
+        else:
+            pcases = dict(L.parse_cases(ctx.out + "/c12pipe.impl.txt"))
+            seenp = set()
+            for case, c in L.run_monitor(ctx, "c12pipe", "c12pipe.impl.txt"):
+                body, _, op = c.partition(" @ ")
+                if not body.startswith("PROP "):
+                    continue
+                sig = sig_of(body[5:], op)
+                if sig in seenp:
+                    continue
+                seenp.add(sig)
+                L.violation(ctx, sig, body[5:] + " @ " + op, {"clause": body[5:], "case": case, "ops": [l for l in pcases.get(case, []) if l.startswith("> ")],
+                                                             "how_to_replay": "bin/check C12 --tier quick (the pipe histories are a fixed list; the op names the one that fails)"})
+            ctx.coverage["pipe_level_histories"] = len(pcases)
     # uncontrolled stress (no hooks involved)
     rc, out = L.run_harness(ctx, exe, "TestVerifC12Stress$", env={"VERIF_N": 5000 if ctx.tier == "quick" else 100000}, timeout=900)
     stress = {}
@@ -137,6 +157,18 @@ def replay(ctx, path):
     import json
     rp = json.load(open(path))
     ops = [o[2:] if o.startswith("> ") else o for o in rp.get("ops", [])]
+    if ops and ops[0].split()[0] in ("dir", "sync"):
+        # a pipe-level history: the list is fixed, the op names the history
+        pexe = L.build_harness(ctx, "proxy")
+        if not pexe or not L.build_driver(ctx):
+            print("cannot build harness/driver: %s" % ctx.tie_failures)
+            return 2
+        L.run_harness(ctx, pexe, "TestVerifC12Pipe$", env={}, timeout=300)
+        hit = [(c, x) for c, x in L.run_monitor(ctx, "c12pipe", "c12pipe.impl.txt") if x.endswith(" @ " + ops[0])]
+        for c, x in hit:
+            print(x)
+        print("REPLAY: %s" % ("the violation reproduces" if hit else "no violation"))
+        return 1 if hit else 0
     exe = L.build_harness(ctx, HDIR)
     if not exe or not L.build_driver(ctx):
         print("cannot build harness/driver: %s" % ctx.tie_failures)
